@@ -76,8 +76,146 @@ def strategy(tier):
     return _case()
 
 
+EXAMPLES = ["empty/dense", "empty/sparse", "empty/cusparse", "empty/rosenbrock4", "minimal/dense", "minimal/sparse", "minimal/cusparse", "minimal/rosenbrock4",
+            "primordial/dense", "primordial/sparse", "primordial/cusparse", "primordial/rosenbrock4", "deuterium/dense", "deuterium/sparse", "deuterium/cusparse",
+            "deuterium/rosenbrock4", "cloud/dense", "cloud/sparse", "cloud/rosenbrock4", "ism/dense", "ism/sparse", "ism/cusparse"]
+
+
 def fixed_cases(tier):
-    return []
+    """The option strings `naunet example --dry` prints for the bundled examples whose network file ships."""
+    sel = ["minimal/dense", "minimal/rosenbrock4", "primordial/sparse", "cloud/dense", "empty/dense"]
+    if tier == "thorough":
+        sel += ["minimal/sparse", "primordial/dense", "primordial/rosenbrock4", "cloud/sparse", "cloud/rosenbrock4", "deuterium/dense"]
+    return [{"kind": "example", "select": EXAMPLES.index(x), "example": x} for x in sel]
+
+
+def run_example(payload):
+    """Fresh process: `naunet example --select=i --dry`, then the printed `naunet init ...` in a scratch directory."""
+    import importlib
+    import io
+    import contextlib
+    import naunet
+    from cleo.application import Application
+    from cleo.testers.command_tester import CommandTester
+    from naunet.console.commands import ExampleCommand, InitCommand, RenderCommand
+
+    root = tempfile.mkdtemp(prefix="vt-")
+    cwd = os.getcwd()
+    try:
+        os.chdir(root)
+        app = Application()
+        for c in (ExampleCommand(), InitCommand(), RenderCommand()):
+            app.add(c)
+        buf = io.StringIO()
+        t = CommandTester(app.find("example"))
+        with contextlib.redirect_stdout(buf):
+            t.execute(f"--select={payload['select']} --dry")
+        out = buf.getvalue() + t.io.fetch_output()
+        line = next((ln for ln in out.splitlines() if ln.startswith("naunet init ")), None)
+        if line is None:
+            return {"raised": f"no init command printed: {out[-200:]}"}
+        opts = line[len("naunet init "):].replace("--render", "--render --render-force", 1) if "--render-force" not in line else line[len("naunet init "):]
+        name = payload["example"].split("/")[0]
+        mod = importlib.import_module(f"naunet.examples.{name}")
+        if mod.files:
+            shutil.copyfile(Path(naunet.__file__).parent / "examples" / name / mod.files, Path(root) / mod.files)
+        ti = CommandTester(app.find("init"))
+        try:
+            rc = ti.execute(opts)
+        except Exception as e:
+            import traceback
+
+            tb = traceback.extract_tb(e.__traceback__)
+            where = next((f"{fr.filename.split('/')[-1]}:{fr.name}" for fr in reversed(tb) if "/naunet/" in fr.filename), "?")
+            return {"raised": f"{type(e).__name__}@{where}: {str(e)[:200]}", "options": opts[:400]}
+        cfg = Path("naunet_config.toml").read_text() if Path("naunet_config.toml").exists() else None
+        return {"status": rc, "config": cfg, "tree": _tree(root), "err": ti.io.fetch_error()[-300:], "options": opts[:400]}
+    finally:
+        os.chdir(cwd)
+        shutil.rmtree(root, ignore_errors=True)
+
+
+def example_desc(example):
+    """The description the example module asks for (what `naunet example` is supposed to configure)."""
+    import importlib
+    import naunet
+
+    name, method = example.split("/")
+    mod = importlib.import_module(f"naunet.examples.{name}")
+    text = (Path(naunet.__file__).parent / "examples" / name / mod.files).read_text() if mod.files else ""
+    terms = []
+    for sname, expr in mod.ode_modifier.items():
+        for fact, dep in zip(expr["factors"], expr["reactants"]):
+            terms.append([sname, fact, list(dep)])
+    return {
+        "fmt": mod.formats, "text": text, "elements": list(mod.elements), "pseudo": list(mod.pseudo_elements), "replacement": dict(mod.element_replacement),
+        "surface": mod.surface_prefix, "bulk": mod.bulk_prefix, "grain_symbol": mod.grain_symbol, "allowed": list(mod.allowed_species), "required": list(mod.extra_species),
+        "binding": dict(mod.binding_energy), "yields": dict(mod.photon_yield), "grain_model": mod.grain_model, "cooling": list(mod.cooling), "shielding": dict(mod.shielding),
+        "rate_mod": {str(k): str(v) for k, v in mod.rate_modifier.items()}, "ode_mod_terms": terms, "name": "vtproj", "description": mod.description,
+        "backend": ["odeint" if method == "rosenbrock4" else "cvode", method, "gpu" if method == "cusparse" else "cpu"], "files": mod.files,
+    }
+
+
+def check_example(case):
+    import tomlkit
+    from ..proc.call import call
+
+    failures = []
+    ex = case["example"]
+    labels = ["example-" + ex]
+    d = call("vtlib.checks.c20", "example_desc", ex)
+    res = call("vtlib.checks.c20", "run_example", {"select": case["select"], "example": ex}, timeout=1800)
+    if "raised" in res:
+        failures.append((f"example/{ex.split('/')[0]}/init-raises/{res['raised'].split(':')[0]}", f"naunet example {ex}: {res['raised']} [{res.get('options', '')[:200]}]"))
+        return CaseResult(failures, True, labels, sample={"example": ex})
+    if res["config"] is None:
+        failures.append((f"example/{ex.split('/')[0]}/no-config", res["err"]))
+        return CaseResult(failures, True, labels, sample={"example": ex})
+    cfg = tomlkit.parse(res["config"])
+    ch = cfg["chemistry"]
+    om = {}
+    for t, f, deps in d["ode_mod_terms"]:
+        ent = om.setdefault(t, {"factors": [], "reactants": []})
+        ent["factors"].append(f)
+        ent["reactants"].append(list(deps))
+    want = {
+        "element.elements": list(d["elements"]) or None, "element.pseudo_elements": list(d["pseudo"]) or None, "element.replacement": dict(d["replacement"]),
+        "species.allowed": list(d["allowed"]), "species.required": list(d["required"]),
+        "species.binding_energy": {k: float(v) for k, v in d["binding"].items()}, "species.photon_yield": {k: float(v) for k, v in d["yields"].items()},
+        "grain.model": d["grain_model"], "network.files": [d["files"]] if d["files"] else [], "network.formats": [d["fmt"]] if d["fmt"] else [],
+        "thermal.cooling": list(d["cooling"]), "shielding": dict(d["shielding"]), "rate_modifier": dict(d["rate_mod"]), "ode_modifier": om,
+        "solver": list(d["backend"][:1]) + [d["backend"][2], d["backend"][1]],
+    }
+    got = {
+        "element.elements": [str(x) for x in ch["element"]["elements"]], "element.pseudo_elements": [str(x) for x in ch["element"]["pseudo_elements"]],
+        "element.replacement": {str(k): str(v) for k, v in ch["element"]["replacement"].items()},
+        "species.allowed": [str(x) for x in ch["species"]["allowed"]], "species.required": [str(x) for x in ch["species"]["required"]],
+        "species.binding_energy": {str(k): float(v) for k, v in ch["species"]["binding_energy"].items()}, "species.photon_yield": {str(k): float(v) for k, v in ch["species"]["photon_yield"].items()},
+        "grain.model": str(ch["grain"]["model"]), "network.files": [str(x) for x in ch["network"]["files"]], "network.formats": [str(x) for x in ch["network"]["formats"]],
+        "thermal.cooling": [str(x) for x in ch["thermal"]["cooling"]], "shielding": {str(k): str(v) for k, v in ch["shielding"].items()},
+        "rate_modifier": {str(k): str(v) for k, v in ch["rate_modifier"].items()},
+        "ode_modifier": {str(k): {"factors": [str(x) for x in v["factors"]], "reactants": [[str(y) for y in x] for x in v["reactants"]]} for k, v in ch["ode_modifier"].items()},
+        "solver": [str(cfg["ODEsolver"]["solver"]), str(cfg["ODEsolver"]["device"]), str(cfg["ODEsolver"]["method"])],
+    }
+    for key, w in want.items():
+        if w is None:
+            continue
+        if got[key] != w:
+            failures.append((f"example/{ex.split('/')[0]}/field/{key}", f"naunet example {ex}: {key} configured {str(got[key])[:200]} but the example asks for {str(w)[:200]}"))
+    if not failures and d["backend"][2] == "cpu":
+        if res["status"] != 0 or not res["tree"]:
+            failures.append((f"example/{ex.split('/')[0]}/render-failed", f"status {res['status']}: {res['err']}"))
+        else:
+            d2 = dict(d, elements=[str(x) for x in ch["element"]["elements"]], pseudo=[str(x) for x in ch["element"]["pseudo_elements"]])
+            d2["fmt"] = d["fmt"] or "naunet"
+            d2["name"] = str(cfg["general"]["name"])  # the example names the project after its directory
+            api = call("vtlib.checks.c20", "run_api", {"desc": d2, "fname": d["files"]}, timeout=1800)
+            if "raised" in api:
+                failures.append((f"example/{ex.split('/')[0]}/api-render-raises", api["raised"]))
+            elif api["tree"] != res["tree"]:
+                diff = sorted(k for k in set(res["tree"]) | set(api["tree"]) if res["tree"].get(k) != api["tree"].get(k))
+                failures.append((f"example/{ex.split('/')[0]}/sources-differ/{diff[0].split('/')[-1]}", f"files differing between `naunet example` and the API rendering: {diff[:5]}"))
+    return CaseResult(failures, True, labels, sample={"example": ex, "options": res.get("options", "")[:300]})
 
 
 def option_string(d):
@@ -210,8 +348,9 @@ def run_api(payload):
     cwd = os.getcwd()
     try:
         os.chdir(root)
-        fname = f"network.{d['fmt']}"
-        Path(fname).write_text(d["text"])
+        fname = payload.get("fname") or f"network.{d['fmt']}"
+        if payload.get("fname") is None or payload.get("fname"):
+            Path(fname).write_text(d["text"])
         Species._replacement = dict(d["replacement"])
         Species.set_known_elements(list(d["elements"]))
         Species.set_known_pseudoelements(list(d["pseudo"]))
@@ -224,7 +363,7 @@ def run_api(payload):
             ent["factors"].append(f)
             ent["reactants"].append(list(deps))
         net = Network(
-            filelist=[fname], fileformats=[d["fmt"]], elements=list(d["elements"]), pseudo_elements=list(d["pseudo"]),
+            filelist=[fname] if fname and d["text"] else [], fileformats=[d["fmt"]] if fname and d["text"] else [], elements=list(d["elements"]), pseudo_elements=list(d["pseudo"]),
             allowed_species=list(d["allowed"]), required_species=list(d["required"]), species_kwargs=sk, grain_model=d["grain_model"],
             heating=[], cooling=list(d["cooling"]), shielding=dict(d["shielding"]),
             rate_modifier={int(k): v for k, v in d["rate_mod"].items()}, ode_modifier=om,
@@ -248,6 +387,8 @@ def check_case(case, tier):
     import tomlkit
     from ..proc.call import call
 
+    if case.get("kind") == "example":
+        return check_example(case)
     d = case
     failures = []
     labels = [f"fmt-{d['fmt']}", f"method-{d['backend'][1]}"]
